@@ -1,9 +1,8 @@
 /-
   C03 model driver.  One history per line:
 
-     <cfgbits> <maxDepth|-1> <ncalls> ( <api> <k> <kind> <beh> )*
+     <maxDepth|-1> <ncalls> ( <api> <k> <kind> <beh> )*
 
-  cfgbits: 4 chars 0/1 = fixStalePrg fixTryLeave fixUnwindAbort fixRecOverflow.
   api: RP | CA n | CO n | TR | TG.   k: 0 = no fault, else the k-th probe of this call faults; kind: t | i.
   beh (prefix form): K | S a b | P id | T | I | Ft n b | Fc n b | Fn n b | Fo b | FO ret b | Fr b | Fb b
                    | Y hc hf body handler fin | G n b | At b | Aw b | Ap b | J b
@@ -86,7 +85,7 @@ def parseApi : List String → Option (TopApi × List String)
   | _ => none
 
 def showOutcome : Outcome → String
-  | .normal => "ok" | .thrown => "ex" | .fatal => "fatal" | .wrecked => "fatal" | .stuck => "STUCK"
+  | .normal => "ok" | .thrown => "ex" | .fatal => "fatal" | .stuck => "STUCK"
 
 def b01 (b : Bool) : String := if b then "1" else "0"
 
@@ -99,15 +98,10 @@ def showState (s : Vm) : String :=
 def showTrace (t : List Obs) : String :=
   " ".intercalate (t.map fun o => s!"{o.id}:{o.callLen},{o.tryLen},{o.iterLen},{o.refLen}")
 
-def parseCfg (s : String) : Cfg :=
-  match s.toList with
-  | [a, b, c, d] => ⟨a == '1', b == '1', c == '1', d == '1'⟩
-  | _ => Cfg.asCoded
-
 def modelFuel : Nat := 400
 
 /-- run the calls of one history in sequence on one model state -/
-def runCalls (cfg : Cfg) : Nat → List String → Vm → List String → Option (List String)
+def runCalls : Nat → List String → Vm → List String → Option (List String)
   | 0, _, _, acc => some acc.reverse
   | n + 1, toks, s, acc => do
     let (api, r1) ← parseApi toks
@@ -117,17 +111,16 @@ def runCalls (cfg : Cfg) : Nat → List String → Vm → List String → Option
       let fk : FaultKind := if kind == "i" then .intr else .throw_
       let kk := natOf k
       let s0 : Vm := { s with probeCount := 0, trace := [], faultAt := if kk = 0 then none else some (kk, fk) }
-      let (o, s1) := apiCall cfg modelFuel api b s0
+      let (o, s1) := apiCall modelFuel api b s0
       let out := s!"{showOutcome o}|{showTrace s1.trace}|{showState s1}"
-      runCalls cfg n r3 s1 (out :: acc)
+      runCalls n r3 s1 (out :: acc)
     | _ => none
 
 def handle (line : String) : String :=
   match Proto.words line with
-  | cfgs :: mx :: n :: rest =>
-    let cfg := parseCfg cfgs
+  | mx :: n :: rest =>
     let maxDepth : Nat := if mx == "-1" then 2147483647 else natOf mx
-    match runCalls cfg (natOf n) rest (Vm.fresh maxDepth) [] with
+    match runCalls (natOf n) rest (Vm.fresh maxDepth) [] with
     | some outs => " ; ".intercalate outs
     | none => "PARSE-ERROR"
   | _ => "PARSE-ERROR"
